@@ -15,8 +15,12 @@ enum Kind {
     InlineRenamed,
     Enum,
     EnumRenamed,
+    /// inline list in which the second value is a second name for the first one (`a, b: "a"`)
+    InlineAliased,
+    /// label_enum with such an alias
+    EnumAliased,
 }
-const KINDS: [Kind; 4] = [Kind::Inline, Kind::InlineRenamed, Kind::Enum, Kind::EnumRenamed];
+const KINDS: [Kind; 6] = [Kind::Inline, Kind::InlineRenamed, Kind::Enum, Kind::EnumRenamed, Kind::InlineAliased, Kind::EnumAliased];
 
 #[derive(Clone, Debug)]
 struct Label {
@@ -58,12 +62,15 @@ const SAFE_IDS: [&str; 8] = ["a", "b", "c", "d", "m", "coll", "value", "e"];
 const RENAMES: [&str; 3] = ["A", "a b", "\u{e9}"];
 
 fn mk_label(li: usize, kind: Kind, nvals: usize, rot: usize, ids: &[&str]) -> Label {
-    let mut values = vec![];
+    let mut values: Vec<(String, String)> = vec![];
     for v in 0..nvals {
         let ident = ids[(rot + li * 3 + v) % ids.len()].to_string();
         // renamed kinds rename the first value (and the third, if any)
         let renamed = matches!(kind, Kind::InlineRenamed | Kind::EnumRenamed) && v % 2 == 0;
-        let s = if renamed { RENAMES[(rot + v / 2) % RENAMES.len()].to_string() } else { ident.clone() };
+        let mut s = if renamed { RENAMES[(rot + v / 2) % RENAMES.len()].to_string() } else { ident.clone() };
+        if matches!(kind, Kind::InlineAliased | Kind::EnumAliased) && v == 1 {
+            s = values[0].1.clone();
+        }
         values.push((ident, s));
     }
     Label { key: format!("l{}", li), kind, values }
@@ -94,7 +101,7 @@ impl Decl {
         let mac = if self.form.auto { "make_auto_flush_static_metric" } else { "make_static_metric" };
         let _ = writeln!(s, "    {}! {{", mac);
         for (li, l) in self.labels.iter().enumerate() {
-            if matches!(l.kind, Kind::Enum | Kind::EnumRenamed) {
+            if matches!(l.kind, Kind::Enum | Kind::EnumRenamed | Kind::EnumAliased) {
                 let _ = writeln!(s, "        pub label_enum E{} {{", li);
                 for (id, val) in &l.values {
                     if id == val {
@@ -108,7 +115,7 @@ impl Decl {
         }
         let _ = writeln!(s, "        pub struct S: {} {{", self.form.ty);
         for (li, l) in self.labels.iter().enumerate() {
-            if matches!(l.kind, Kind::Enum | Kind::EnumRenamed) {
+            if matches!(l.kind, Kind::Enum | Kind::EnumRenamed | Kind::EnumAliased) {
                 let _ = writeln!(s, "            {:?} => E{},", l.key, li);
             } else {
                 let _ = writeln!(s, "            {:?} => {{", l.key);
@@ -166,14 +173,14 @@ impl Decl {
             total += a1;
             let _ = writeln!(s, "        s.{}.{};", fields.join("."), self.leaf_op(a1));
             // (2) get(enum) wherever the label is an enum reference
-            if self.labels.iter().any(|l| matches!(l.kind, Kind::Enum | Kind::EnumRenamed)) {
+            if self.labels.iter().any(|l| matches!(l.kind, Kind::Enum | Kind::EnumRenamed | Kind::EnumAliased)) {
                 let a2 = 1u64 << bit;
                 bit += 1;
                 total += a2;
                 let mut chain = String::from("s");
                 for (li, &vi) in path.iter().enumerate() {
                     let l = &self.labels[li];
-                    if matches!(l.kind, Kind::Enum | Kind::EnumRenamed) {
+                    if matches!(l.kind, Kind::Enum | Kind::EnumRenamed | Kind::EnumAliased) {
                         let _ = write!(chain, ".get(E{}::{})", li, l.values[vi].0);
                     } else {
                         let _ = write!(chain, ".{}", l.values[vi].0);
@@ -192,7 +199,7 @@ impl Decl {
                 }
                 let _ = writeln!(s, "        {}.{};", chain, self.leaf_op(a3));
             }
-            let _ = writeln!(s, "        exp.insert(key(&{:?}), {}u64 as f64);", strs, total);
+            let _ = writeln!(s, "        *exp.entry(key(&{:?})).or_insert(0.0) += {}u64 as f64;", strs, total);
         }
         assert!(bit <= 52, "too many leaves for exact sums");
         if !self.form.auto {
@@ -237,7 +244,7 @@ fn declarations(thorough: bool) -> Vec<Decl> {
             for (i1, &k1) in KINDS.iter().enumerate() {
                 let vcombos: Vec<(usize, usize)> = if i0 == i1 || thorough { vec![(2, 2), (1, 2), (2, 1), (1, 1)] } else { vec![(2, 2)] };
                 // quick: every form sees every kind pair, but off-diagonal pairs are spread over the forms
-                if !thorough && i0 != i1 && (i0 * 4 + i1 + fi) % 3 != 0 {
+                if !thorough && i0 != i1 && (i0 * 6 + i1 + fi) % 4 != 0 {
                     continue;
                 }
                 for (v0, v1) in vcombos {
@@ -251,8 +258,8 @@ fn declarations(thorough: bool) -> Vec<Decl> {
         if thorough {
             // L = 3, V = 2: all kind triples over 3 kinds, all 6 permutations
             for &k0 in &KINDS[..3] {
-                for &k1 in &KINDS[1..] {
-                    for &k2 in &[Kind::Inline, Kind::EnumRenamed] {
+                for &k1 in &KINDS[1..4] {
+                    for &k2 in &[Kind::Inline, Kind::EnumRenamed, Kind::InlineAliased] {
                         for perm in combi::permutations(3) {
                             rot += 1;
                             push(form, vec![mk_label(0, k0, 2, rot, &SAFE_IDS), mk_label(1, k1, 2, rot, &SAFE_IDS), mk_label(2, k2, 2, rot, &SAFE_IDS)], perm, &mut out);
@@ -356,7 +363,7 @@ fn main() {
     .unwrap();
     let _ = std::fs::copy("/repo/Cargo.lock", format!("{}/Cargo.lock", dir));
     let total: usize = members.iter().map(|(_, p, _)| p.len()).sum();
-    rep.rule = format!("generated programs: {} declarations of the grammar — metric form in {{Counter, IntCounter, Gauge, IntGauge, Histogram, LocalCounter, LocalIntCounter, LocalHistogram}} under make_static_metric! and {{LocalCounter, LocalIntCounter, LocalHistogram}} under make_auto_flush_static_metric! (+ auto_flush_from!); 1..{} labels, each inline / inline-renamed / label_enum / label_enum-renamed with 1..{} values; every permutation of the label names in the backing vector; value identifiers rotated over {:?}; plus {} probe declarations using each local name of the generated code ({:?}) as a value identifier in every position. Each declaration is compiled and run: every leaf is updated by a distinct power of two through the field path, the get(enum) path and the try_get(str) path, local forms are flushed, and vec.collect() must show exactly the declared children with exactly their amounts; try_get of undeclared strings must be None. distinct = distinct (declaration shape, children) results", decls.len(), if thorough { 4 } else { 3 }, if thorough { 3 } else { 2 }, SAFE_IDS, total - decls.len(), PROBE_IDS);
+    rep.rule = format!("generated programs: {} declarations of the grammar — metric form in {{Counter, IntCounter, Gauge, IntGauge, Histogram, LocalCounter, LocalIntCounter, LocalHistogram}} under make_static_metric! and {{LocalCounter, LocalIntCounter, LocalHistogram}} under make_auto_flush_static_metric! (+ auto_flush_from!); 1..{} labels, each inline / inline-renamed / label_enum / label_enum-renamed / inline or enum with a second name for the first value (alias) with 1..{} values; every permutation of the label names in the backing vector; value identifiers rotated over {:?}; plus {} probe declarations using each local name of the generated code ({:?}) as a value identifier in every position. Each declaration is compiled and run: every leaf is updated by a distinct power of two through the field path, the get(enum) path and the try_get(str) path, local forms are flushed, and vec.collect() must show exactly the declared children with exactly their amounts; try_get of undeclared strings must be None. distinct = distinct (declaration shape, children) results", decls.len(), if thorough { 4 } else { 3 }, if thorough { 3 } else { 2 }, SAFE_IDS, total - decls.len(), PROBE_IDS);
     rep.bounds = json!({"declarations": decls.len(), "probe_declarations": total - decls.len(), "crates": members.len()});
     let out = Command::new("cargo")
         .args(["build", "--release", "--offline", "--workspace", "--keep-going"])
